@@ -362,14 +362,14 @@ Qed.
 (* ------------------------------------------------------------------------------------------ *)
 (* the full functional statement of C16 on the model, and its refutation                        *)
 
-(* In a document without diagnostics, at every cursor position of one of the four classes
+(* In a document without diagnostics (a missing `main` is tolerated), at every cursor position of one of the four classes
    ([position_class]: statement start or the gap in front of a closing brace inside a procedure body;
    behind `:=` or behind a `(` of a body; behind `:` in a procedure declaration; between / before /
    behind the global declarations - each including the position directly behind the token and
    positions behind comments) the answer is what the property prescribes ([meets]). *)
 Definition completion_full_statement : Prop :=
   forall t d line col c,
-    new_doc t = Done d -> doc_errors d = Done [] ->
+    new_doc t = Done d -> valid_doc d = true ->
     position_class d (get_insertion_index line col (d_text d)) = Some c ->
     meets d c (propose d line col) = true.
 
@@ -382,7 +382,7 @@ Lemma completion_full_statement_refuted : ~ completion_full_statement.
 Proof.
   intros H.
   destruct (new_doc refute_text) as [d| |] eqn:Ed; [|vm_compute in Ed; discriminate|vm_compute in Ed; discriminate].
-  assert (He : doc_errors d = Done []) by (vm_compute in Ed; injection Ed as <-; vm_compute; reflexivity).
+  assert (He : valid_doc d = true) by (vm_compute in Ed; injection Ed as <-; vm_compute; reflexivity).
   destruct (position_class d (get_insertion_index 0 30 (d_text d))) as [c|] eqn:Ec.
   2:{ vm_compute in Ed. injection Ed as <-. vm_compute in Ec. discriminate. }
   pose proof (H refute_text d 0%N 30%N c Ed He Ec) as Hm.
